@@ -131,7 +131,15 @@ func main() {
 		if schemaOnly != "" {
 			schema = atlab.ByName(schemaOnly)
 		}
-		if schema.Auto && !atlab.AutoCompatible(sc.Init, branches) {
+		hasForeign := false
+		for _, st := range sc.Steps {
+			if st.Op == "foreign" {
+				hasForeign = true
+			}
+		}
+		if schema.Auto && (!atlab.AutoCompatible(sc.Init, branches) || hasForeign) {
+			// a foreign insert with an explicit key moves the auto-increment counter: later generated keys would
+			// not be the keys the scenario speaks of
 			schema = fam[0]
 		}
 		if sc.Shape != "" && schemaOnly == "" {
@@ -276,6 +284,9 @@ func run(lab *atlab.Lab, t *trace.T, sc scenario, schema *atlab.Schema, style at
 				var rbStatus string
 				armed := true
 				lab.Coord.Script = func(kind string, m tc.Msg) (tc.Reply, bool) {
+					if kind == "BranchReport" && style.RefuseReports {
+						return tc.Reply{NetErr: errors.New("write tcp: broken pipe")}, true
+					}
 					if kind != "BranchRegister" || !armed {
 						return tc.Reply{}, false
 					}
@@ -295,6 +306,13 @@ func run(lab *atlab.Lab, t *trace.T, sc scenario, schema *atlab.Schema, style at
 				}
 				err := lab.RunBranch(ctx, schema, st.Stmts, style)
 				lab.Coord.Script = nil
+				// "commits nothing": whatever the late phase one left on a pooled connection would become durable with
+				// the next local transaction that gets the connection (START TRANSACTION commits implicitly)
+				for n := 0; n < 3; n++ {
+					if ptx, perr := lab.DB.BeginTx(context.Background(), nil); perr == nil {
+						_ = ptx.Commit()
+					}
+				}
 				if armed && err != nil {
 					// phase one failed before it even registered the branch: not this module's business
 					t.Add("Abort", "why", "p1 failed before register: "+err.Error(), "sig", fmt.Sprintf("%s:%s", sigBase, stmtSig(st.Stmts)))
